@@ -16,7 +16,7 @@ CONSTANTS
   ChkCompare = TRUE
   ApplyDropFrame = FALSE
   Wire = 2
-  Emit = "final"
+  Emit = "none"
 VIEW view
 INVARIANTS ChkIsImage OnHistory FilterRespected NoFrameOutsideFilter QuiescentConverged DropFollows EmitInv
 
